@@ -5,6 +5,9 @@ use tokio::io::{self, AsyncRead, AsyncReadExt};
 
 use self::reference_sequence::read_reference_sequence;
 
+// The count comes from the input: use it as a capacity hint only up to this bound.
+const MAX_PREALLOCATED_LEN: usize = 1 << 16;
+
 pub(super) async fn read_reference_sequences<R>(reader: &mut R) -> io::Result<ReferenceSequences>
 where
     R: AsyncRead + Unpin,
@@ -13,7 +16,8 @@ where
         usize::try_from(n).map_err(|e| io::Error::new(io::ErrorKind::InvalidData, e))
     })?;
 
-    let mut reference_sequences = ReferenceSequences::with_capacity(n_ref);
+    let mut reference_sequences =
+        ReferenceSequences::with_capacity(n_ref.min(MAX_PREALLOCATED_LEN));
 
     for _ in 0..n_ref {
         let (name, reference_sequence) = read_reference_sequence(reader).await?;
